@@ -59,6 +59,7 @@ def gen_cases(rng, tier):
                             case_mix=True)
         tab = cfg.Table(c)
         c['reads_as'] = {n: cfgprop.mixed_case(rng, n) for n in tab.names}
+        c['probe_first'] = (k % 4 == 3)      # built without a connection, looked at, then attached (the launch() path)
         yield c
 
 
